@@ -277,7 +277,15 @@ def o_c04(recs):
         if st.kind != "cmd" or st.name not in ("add", "rm"):
             continue
         b, a = r.before, r.after
-        if staged(b) is None or fd_conflict(b):
+        if staged(b) is None:
+            continue
+        if st.name == "rm":
+            # whatever the state and the outcome: rm never removes or changes a file that is not tracked
+            lost = [p for p, v in b.files.items() if p not in staged(b) and a.files.get(p) != v]
+            if lost:
+                bad.append((i, "rm removed or changed the untracked file(s) %r" % sorted(lost)[:3]))
+                continue
+        if fd_conflict(b):
             continue
         args = [x for x in st.argv[1:] if x != b"--"]
         if st.name == "add":
@@ -322,6 +330,8 @@ def o_c04(recs):
                 elif not unchanged(b, a):
                     bad.append((i, "refused rm changed %s" % what_changed(b, a)))
                 continue
+            if any(p in b.dirs and any(under(p, f) for f in b.files) for p in sel):
+                continue      # a selected tracked path is now a directory holding files: the property does not say
             if r.res.cls != "ok":
                 bad.append((i, "valid rm failed: %r" % r.res.err[-120:]))
                 continue
